@@ -3,7 +3,7 @@ from __future__ import annotations
 import itertools, random
 import z3
 from pyvc import source
-from pyvc.interp import Interp, explore, Outside, PyExc, SymVal, Contract, GenList, LoopSpec
+from pyvc.interp import Interp, Path, explore, Outside, PyExc, SymVal, Contract, GenList, LoopSpec
 from pyvc.world import World
 from pyvc.smt import Obligation, Result, discharge
 from pyvc.par import pmap
@@ -150,6 +150,7 @@ def work_logic(lname):
             bad = []
             for fam in families(0):
                 m = EvalModel(logic, family=list(fam))
+                m.eval_world = WORLD; m.inaccessible_top = (op.name == 'Possibility')     # an inaccessible world where the operand would flip the result
                 s = SentTok(head=op, parts=[SentTok()])
                 try:
                     prs = explore(lambda path: (lambda it: it.call(m.sym_getattr(it, 'value_of_operated'), [s], dict(world=WORLD)))(Interp(path, eval_world(m))))
@@ -158,7 +159,10 @@ def work_logic(lname):
                 note(m)
                 want = S.NAME[(sem.poss if op.name == 'Possibility' else sem.nec)([S.VAL[v.name] for v in fam])]
                 if len(prs) != 1 or prs[0].kind != 'return' or getattr(prs[0].value, 'name', None) != want:
-                    bad.append(dict(family=[v.name for v in fam], got=str(prs[0].value if prs and prs[0].kind == 'return' else None), want=want))
+                    bad.append(dict(family=[v.name for v in fam], got=str(prs[0].value if prs and prs[0].kind == 'return' else None), want=want,
+                                    note=('the operand was evaluated at a world that is not accessible from the world asked about' if any(w.index is None for w in m.worlds_asked) else None)))
+                elif any(w.index is None for w in m.worlds_asked):
+                    bad.append(dict(family=[v.name for v in fam], note='the operand was evaluated at a world that is not accessible from the world asked about'))
                 elif not world_forwarded(m):
                     bad.append(dict(family=[v.name for v in fam], note=f'the accessible worlds are not taken from the world asked about: callees received {m.kw_seen[:3]}'))
             if bad is not None:
@@ -340,6 +344,64 @@ def classical_completion(ctx):
     for key, (L, calls, prob) in sorted(fails.items()):
         ctx.bounded_failure('C08.classical.identity-completion', f'{L}: after {calls} and finish(): {prob}', dict(logic=L, calls=calls, problem=prob), instance=key)
 
+def base_family_obligations(ctx):
+    """the two generators every clause above takes by contract ("the values of the instances / of the accessible worlds"), interpreted
+    from the base class: BaseModel._unmodal_values yields value_of(s.lhs, world=w2) for exactly the worlds in R[world], in order;
+    BaseModel._unquantify_values yields value_of(c >> s, **kw) for exactly the model's constants, in order, forwarding kw."""
+    from pytableaux.models import BaseModel
+    from pyvc.world import World
+    class T(SymVal):
+        def __init__(s, name): s.name = name
+        def __repr__(s): return s.name
+        def sym_truth(s, it): return True
+    class Inst(T):
+        def __init__(s, c, q): s.c, s.q = c, q; s.name = f'{c}>>{q}'
+    class C(T):
+        def sym_binop(s, it, op, other, reflected):
+            if op == 'RShift' and not reflected: return Inst(s, other)
+            return NotImplemented
+    for name, clause in (('_unmodal_values', 'yields value_of(s.lhs, world=w2) for exactly the worlds w2 in R[world], in order'),
+                         ('_unquantify_values', 'yields value_of(c >> s, **kw) for exactly the constants of the model, in order, forwarding the keywords')):
+        fn = BaseModel.__dict__[name]; fi = source.of_function(fn); where = ctx.under_contract(fi)
+        oname = f'C08.base.{name}'
+        bad = []; cases = 0
+        try:
+            for k in range(0, 4):
+                cases += 1
+                calls = []
+                lhs = T('lhs'); sent = T('sentence')
+                worlds = [T(f'u{i}') for i in range(k)]; consts = [C(f'c{i}') for i in range(k)]
+                class Sent(T):
+                    def sym_getattr(s, it, n):
+                        if n == 'lhs': return lhs
+                        raise Outside(f'sentence.{n}')
+                sent = Sent('sentence')
+                class RM(SymVal):
+                    def sym_getitem(s, it, w):
+                        if w == WORLD: return GenList(list(worlds))
+                        return GenList([T('another-worlds-successor')])
+                    def sym_iter(s, it): return list(worlds) + [T('inaccessible')]
+                class M(SymVal):
+                    def sym_getattr(s, it, n):
+                        if n == 'R': return RM()
+                        if n == 'constants': return GenList(list(consts))
+                        if n == 'value_of':
+                            def vo(it, x, **kw): calls.append((x, dict(kw))); return T(f'value{len(calls)}')
+                            return Contract(vo, 'Model.value_of')
+                        raise Outside(f'Model.{n}')
+                it = Interp(Path([]), World())
+                out = it.iterate(it.call_source(fi, fn, BaseModel, [M(), sent], dict(world=WORLD)))
+                if len(out) != k or len(calls) != k: bad.append(f'{k} members: {len(out)} values from {len(calls)} evaluations'); continue
+                for i, (x, kw) in enumerate(calls):
+                    if name == '_unmodal_values':
+                        if x is not lhs or kw != dict(world=worlds[i]): bad.append(f'evaluation {i}: value_of({x}, {kw}), expected value_of(lhs, world={worlds[i]})')
+                    else:
+                        if not isinstance(x, Inst) or x.c is not consts[i] or x.q is not sent or kw != dict(world=WORLD): bad.append(f'evaluation {i}: value_of({x}, {kw}), expected value_of({consts[i]} >> sentence, world={WORLD})')
+                    if getattr(out[i], 'name', None) != f'value{i + 1}': bad.append(f'value {i} is not the result of evaluation {i}')
+            ctx.add(enum_ob(oname, not bad, where=where, clause=clause, cases=cases, cex=dict(bad=bad[:4]) if bad else None))
+        except Outside as e:
+            ctx.add_result(Result(oname, 'unknown', detail=f'outside subset: {e}', where=where))
+
 def complete_frames_obligation(ctx):
     """BaseModel._complete_frames interpreted from source on scenario models (frames and the access relation are
     default-creating maps, as in the constructor): afterwards every world of R has a frame and every frame's world is in R;
@@ -455,6 +517,7 @@ def run(ctx):
                        'family of values of size <= 3 and must equal the spec generaliser; Access.enforce is run on all 512 relations over 3 worlds and compared with the spec closure.  Bounded: whole random models '
                        'against the independent evaluator; classical identity/existence completion over insertion orders.')
     limit_best(ctx)
+    base_family_obligations(ctx)
     from checks import rulesem as RS
     registry = RS.registry()
     names = [registry(n).Meta.name for n in registry]
@@ -493,6 +556,10 @@ def replay(payload):
         m.R[0]
         for i, v in enumerate(fam):
             m.R.add((0, i + 1)); m.set_atomic_value(A, v, world=i + 1)
+        if cex.get('note') and 'not accessible' in cex['note']:
+            # one more world that world 0 does not access (it only accesses itself), where the operand has the value that would flip the result
+            w = len(fam) + 1
+            m.R.add((w, w)); m.set_atomic_value(A, (list(logic.Meta.values)[-1] if parts[3] == 'Possibility' else list(logic.Meta.values)[0]).name, world=w)
         # keep the relation as given: evaluate before any frame closure would add pairs (K-style evaluation of the clause)
         m._complete_frames(); m._finished = True
         s = Operator[parts[3]](A)
